@@ -107,13 +107,13 @@ func (tree *Tree[T]) Name() string { return tree.name }
 //
 // methods 可以为空，表示采用 [AnyMethods] 中的值。
 func (tree *Tree[T]) Add(pattern string, h T, ms []types.Middleware[T], methods ...string) error {
-	if err := tree.checkAmbiguous(pattern); err != nil {
-		return err
-	}
-
 	if tree.locker != nil {
 		tree.locker.Lock()
 		defer tree.locker.Unlock()
+	}
+
+	if err := tree.checkAmbiguous(pattern); err != nil { // 需要读取路由树，同样在锁的范围之内。
+		return err
 	}
 
 	if len(methods) == 0 {
@@ -276,6 +276,11 @@ func (tree *Tree[T]) match(ctx *types.Context) *node[T] {
 func (tree *Tree[T]) Handler(ctx *types.Context, method string) (types.Node, T, bool) {
 	ctx.SetRouterName(tree.Name())
 
+	if tree.locker != nil { // 对 trace、notFound 和 node.handlers 的访问也需要在锁的范围之内
+		tree.locker.RLock()
+		defer tree.locker.RUnlock()
+	}
+
 	if tree.hasTrace && method == http.MethodTrace {
 		return tree.node, tree.trace, true
 	}
@@ -284,7 +289,7 @@ func (tree *Tree[T]) Handler(ctx *types.Context, method string) (types.Node, T, 
 	if ctx.Path == "*" || ctx.Path == "" {
 		node = tree.node
 	} else {
-		node = tree.match(ctx)
+		node = tree.node.matchChildren(ctx)
 	}
 
 	if node == nil || node.size() == 0 {
@@ -328,6 +333,11 @@ func (tree *Tree[T]) Find(pattern string) *node[T] { return tree.node.find(patte
 //
 // NOTE: 会检测 pattern 是否存在于 tree 中。
 func (tree *Tree[T]) URL(buf *errwrap.StringBuilder, pattern string, ps map[string]string) error {
+	if tree.locker != nil {
+		tree.locker.RLock()
+		defer tree.locker.RUnlock()
+	}
+
 	n := tree.Find(pattern)
 	if n == nil || n.size() == 0 { // 没有处理方法的中间节点不是路由项
 		return fmt.Errorf("%s 并不是一条有效的注册路由项", pattern)
@@ -365,6 +375,11 @@ func (tree *Tree[T]) URL(buf *errwrap.StringBuilder, pattern string, ps map[stri
 
 // ApplyMiddleware 为已有的路由项添加中间件
 func (tree *Tree[T]) ApplyMiddleware(ms ...types.Middleware[T]) {
+	if tree.locker != nil {
+		tree.locker.Lock()
+		defer tree.locker.Unlock()
+	}
+
 	tree.notFound = ApplyMiddleware(tree.notFound, "", "", tree.Name(), ms...)
 	if tree.hasTrace {
 		tree.trace = ApplyMiddleware(tree.trace, http.MethodTrace, "", tree.Name(), ms...)
